@@ -257,11 +257,29 @@ def rule_qm(ctx):
     C11.invariant_obligations(ScopedCtx(ctx, parser_scope(ctx.facts())), ctx.facts(), rule="QM-INV")
 
 
+def rule_type_case(ctx):
+    """'any letter case in the type': the string-like type parameters store the type ASCII-lower-cased after validating it
+    (C13's sibling obligations: every Ok path of each finish lower-cases or is provably free of [A-Z]); for PackageType the
+    name table is case-insensitive (C15, rule TYPED below)."""
+    from . import C04
+    C04.rule_typevalid(ctx, rule="TYPE-CASE", alphabet=False)
+
+
+def rule_alg_case(ctx):
+    """'any letter case in .. checksum algorithm names': two spellings of one algorithm name must end up as one stored name,
+    i.e. the lower-caser that keys the checksum parser's map is char-wise to_lowercase on every char (the obligations C05
+    uses for 'algorithm repeated in any case', under this property's rule name)."""
+    from . import C05
+    C05.rule_dup_case(ctx, rule="ALG-CASE")
+
+
 RULES = [
     ("QM-INV", rule_qm, 25),
     ("GRAMMAR", lambda ctx: (rule_grammar(ctx), rule_segments(ctx), rule_qloop(ctx)), 14),
     ("DECODE-ALL", lambda ctx: None, 4),
     ("ALPHABET", rule_alphabet, 2),
+    ("ALG-CASE", rule_alg_case, 4),
+    ("TYPE-CASE", rule_type_case, 4),
     ("REJECT-COMPLETE", rule_reject_complete, 20),
     ("BUILD-FRAME", rule_build_frame, 4),
     ("FRAME", lambda ctx: None, 3),
